@@ -1,12 +1,33 @@
-import Xsm
+import Xsm.Model.Engine
+import Xsm.Model.Parse
+/-!
+Line-protocol driver for the executable model (compiled as a `lean_exe`; imports only `Xsm.Model`).
+
+    M <machine-json>            -> {"ok":true} | {"ok":false,"err":"<kind>: ..."}
+    G g0=t g1=f g2=r            guard valuation (absent = not implemented)
+    F sync|async
+    RESET                       forget the run state, keep machine / valuation / flavour
+    START | SEND <type> | AFTER <type> | DONE <type> <src>
+                                -> {"C":[ids],"S":status,"T":[records],"H":{owner:[ids]},"E":kind,"X":n}
+    Q match <json-array-of-keys> <event>      -> {"r":[keys]}
+    Q resolve <json path array> <target>      -> {"r":id|null}
+-/
 open XSM
 
-def showPath (m : Machine) (p : Path) : String := m.idOf p
+def jstr (s : String) : String :=
+  "\"" ++ s.foldl (fun acc c =>
+    if c = '"' then acc ++ "\\\"" else if c = '\\' then acc ++ "\\\\"
+    else if c = '\n' then acc ++ "\\n" else if c = '\t' then acc ++ "\\t" else if c = '\r' then acc ++ "\\r"
+    else if c.toNat < 32 then acc ++ "\\u00" ++ (String.singleton (Nat.digitChar (c.toNat / 16))) ++ (String.singleton (Nat.digitChar (c.toNat % 16)))
+    else acc.push c) "" ++ "\""
+
+def jarr (xs : List String) : String := "[" ++ ",".intercalate xs ++ "]"
 
 def render (m : Machine) (s : St) (err : String) : String :=
-  let ids := (s.cfg.map (m.idOf ·)).toArray.qsort (· < ·) |>.toList
-  let hist := s.hist.map (fun kv => m.idOf kv.1 ++ "=" ++ ",".intercalate ((kv.2.map (m.idOf ·)).toArray.qsort (· < ·) |>.toList))
-  s!"C {",".intercalate ids} | S {s.status} | T {" ".intercalate s.trace.reverse} | H {";".intercalate hist} | E {err} | X {s.errors}"
+  let ids := jarr (s.cfg.map (fun p => jstr (m.idOf p)))
+  let hist := "{" ++ ",".intercalate (s.hist.map (fun kv => jstr (m.idOf kv.1) ++ ":" ++ jarr (kv.2.map (fun p => jstr (m.idOf p))))) ++ "}"
+  let tr := jarr (s.trace.reverse.map jstr)
+  "{\"C\":" ++ ids ++ ",\"S\":" ++ jstr s.status ++ ",\"T\":" ++ tr ++ ",\"H\":" ++ hist ++ ",\"E\":" ++ jstr err ++ ",\"X\":" ++ toString s.errors ++ "}"
 
 def errStr : EErr → String
   | .stateNotFound _ => "StateNotFoundError"
@@ -14,38 +35,84 @@ def errStr : EErr → String
   | .missingGuard _ => "ImplementationMissingError"
 
 def runCmd (s : St) (act : St → St) : St × String :=
-  let s' := act { s with trace := [], err := none }
+  let s' := act { s with trace := [], err := none, errors := 0 }
   (s', match s'.err with | some e => errStr e | none => "")
 
-partial def loop (h : IO.FS.Stream) (m : Option Machine) (env : List (String × GOut)) (s : St) (fl : Flavor := .sync) : IO Unit := do
+def dropPrefix (line : String) (n : Nat) : String := String.ofList (line.toList.drop n)
+
+def jsonStrings : J → List String
+  | .arr xs => xs.filterMap (fun | .str s => some s | _ => none)
+  | _ => []
+
+structure DS where
+  m : Option Machine := none
+  env : List (String × GOut) := []
+  fl : Flavor := .sync
+  s : St := {}
+
+def handle (d : DS) (line : String) : DS × String :=
+  let genv : GEnv := fun n => ((d.env.find? (fun kv => kv.1 = n)).map (·.2)).getD .missing
+  if line.startsWith "M " then
+    match parseJson (dropPrefix line 2) with
+    | .error e => ({ d with m := none, s := {} }, "{\"ok\":false,\"err\":" ++ jstr ("JSON " ++ e) ++ "}")
+    | .ok j =>
+      match parseMachine j with
+      | .ok mm => ({ d with m := some mm, s := {} }, "{\"ok\":true}")
+      | .error e => ({ d with m := none, s := {} }, "{\"ok\":false,\"err\":" ++ jstr e ++ "}")
+  else if line.startsWith "G" then
+    let toks := (dropPrefix line 2).splitOn " "
+    let env' := toks.filterMap (fun tk => match tk.splitOn "=" with
+      | [n, "t"] => some (n, GOut.t) | [n, "f"] => some (n, GOut.f) | [n, "r"] => some (n, GOut.raises) | _ => none)
+    ({ d with env := env' }, "{\"ok\":true}")
+  else if line = "F sync" then ({ d with fl := .sync }, "{\"ok\":true}")
+  else if line = "F async" then ({ d with fl := .async }, "{\"ok\":true}")
+  else if line = "RESET" then ({ d with s := {} }, "{\"ok\":true}")
+  else if line.startsWith "Q match " then
+    let rest := dropPrefix line 8
+    -- keys json array, then a space, then the event (the array contains no "] " inside strings in our use)
+    match rest.splitOn "] " with
+    | [a, ev] =>
+      (match parseJson (a ++ "]") with
+       | .ok j => (d, "{\"r\":" ++ jarr ((matchingDescriptors (jsonStrings j) ev).map jstr) ++ "}")
+       | .error e => (d, "{\"err\":" ++ jstr e ++ "}"))
+    | [a] =>
+      (match parseJson a with
+       | .ok j => (d, "{\"r\":" ++ jarr ((matchingDescriptors (jsonStrings j) "").map jstr) ++ "}")
+       | .error e => (d, "{\"err\":" ++ jstr e ++ "}"))
+    | _ => (d, "{\"err\":\"bad Q match\"}")
+  else match d.m with
+  | none => (d, "{\"err\":\"nomachine\"}")
+  | some mm =>
+    if line.startsWith "Q resolve " then
+      let rest := dropPrefix line 10
+      match rest.splitOn "] " with
+      | [a, tgt] =>
+        (match parseJson (a ++ "]") with
+         | .ok j =>
+           (d, "{\"r\":" ++ (match resolveRobust mm (jsonStrings j) tgt with | some p => jstr (mm.idOf p) | none => "null") ++ "}")
+         | .error e => (d, "{\"err\":" ++ jstr e ++ "}"))
+      | _ => (d, "{\"err\":\"bad Q resolve\"}")
+    else
+    let go (act : St → St) : DS × String :=
+      let (s', e) := runCmd d.s act
+      ({ d with s := s' }, render mm s' e)
+    if line = "START" then go (start d.fl mm genv)
+    else if line.startsWith "SEND " then go (send d.fl mm genv (.user (dropPrefix line 5)))
+    else if line.startsWith "AFTER " then go (send d.fl mm genv (.after (dropPrefix line 6)))
+    else if line.startsWith "DONE " then
+      match (dropPrefix line 5).splitOn " " with
+      | [t, src] => go (send d.fl mm genv (.done t src))
+      | _ => (d, "{\"err\":\"bad DONE\"}")
+    else (d, "{\"err\":\"cmd\"}")
+
+partial def loop (h : IO.FS.Stream) (out : IO.FS.Stream) (d : DS) : IO Unit := do
   let line ← h.getLine
   if line.isEmpty then return ()
   let line := line.trimAsciiEnd.toString
-  let genv : GEnv := fun n => ((env.find? (fun kv => kv.1 = n)).map (·.2)).getD .missing
-  if line.startsWith "M " then
-    match parseJson (String.ofList (line.toList.drop 2)) with
-    | .error e => IO.println s!"err JSON {e}"; loop h none env s fl
-    | .ok j =>
-      match parseMachine j with
-      | .ok mm => IO.println "ok"; loop h (some mm) env {} fl
-      | .error e => IO.println s!"err {e}"; loop h none env {} fl
-  else if line.startsWith "G " then
-    -- guard valuation: name=t|f|r space separated
-    let toks := (String.ofList (line.toList.drop 2)).splitOn " "
-    let env' := toks.filterMap (fun tk => match tk.splitOn "=" with
-      | [n, "t"] => some (n, GOut.t) | [n, "f"] => some (n, GOut.f) | [n, "r"] => some (n, GOut.raises) | _ => none)
-    IO.println "ok"; loop h m env' s fl
-  else if line = "F sync" then do IO.println "ok"; loop h m env s .sync
-  else if line = "F async" then do IO.println "ok"; loop h m env s .async
-  else match m with
-  | none => IO.println "err nomachine"; loop h m env s fl
-  | some mm =>
-    if line = "START" then
-      let (s', e) := runCmd s (start fl mm genv)
-      IO.println (render mm s' e); loop h m env s' fl
-    else if line.startsWith "SEND " then
-      let (s', e) := runCmd s (send fl mm genv (.user (String.ofList (line.toList.drop 5))))
-      IO.println (render mm s' e); loop h m env s' fl
-    else do IO.println "err cmd"; loop h m env s fl
+  let (d', o) := handle d line
+  out.putStrLn o
+  loop h out d'
 
-def main : IO Unit := do loop (← IO.getStdin) none [] {}
+def main : IO Unit := do
+  let out ← IO.getStdout
+  loop (← IO.getStdin) out {}
